@@ -365,7 +365,16 @@ func (c *Ctx) c08ReturnsSmallerParam(rule string, fn *ssa.Function, idx int, pa,
 // the stores.  Returns the stored value descriptions.
 func (c *Ctx) c08StoreMinFold(rule, key string, fn *ssa.Function, what string, storePred func(ssa.Instruction) bool, isLoad Pat, initBars ...Barrier) []*Expr {
 	var vals []*Expr
-	for _, in := range instrsWhere(fn, storePred) {
+	stores := instrsWhere(fn, storePred)
+	if len(stores) == 0 {
+		// the fold was moved wholesale into an unexported helper of fn
+		for _, g := range scopeFuncs(fn) {
+			if TopLevel(g) != TopLevel(fn) {
+				stores = append(stores, instrsWhere(g, func(in ssa.Instruction) bool { return in.Parent() == g && storePred(in) })...)
+			}
+		}
+	}
+	for _, in := range stores {
 		st, ok := in.(*ssa.Store)
 		if !ok {
 			continue
